@@ -7,7 +7,7 @@ cd "$(dirname "$0")/.." || exit 2
 for d in "$@"; do
   id=$(basename "$d"); prop=${id%%-*}
   git -C /repo checkout -q -- . 
-  if ! git -C /repo apply "$d/patch.diff"; then echo "$id apply=FAILED"; continue; fi
+  if ! git -C /repo apply "$(readlink -f "$d")/patch.diff"; then echo "$id apply=FAILED"; continue; fi
   t0=$(date +%s)
   timeout 1800 ./check "$prop" "$tier" > "/tmp/seedrun-$id.out" 2> "/tmp/seedrun-$id.err"; rc=$?
   t1=$(date +%s)
